@@ -9,3 +9,6 @@ pub assume_specification<T, U, F: FnOnce(T) -> U> [Option::<T>::map_or] (o: Opti
 // opaque diagnostic text (rule D3): message strings are outside every property
 #[verifier::external_body]
 pub fn verif_text() -> (s: String) { String::new() }
+
+pub assume_specification<Idx: Clone> [<std::ops::Range<Idx> as Clone>::clone] (x: &std::ops::Range<Idx>) -> (r: std::ops::Range<Idx>)
+    ensures r == *x;
